@@ -680,9 +680,17 @@ func (g *FuncGen) execConvert(x *ssa.Convert) {
 				g.sc.declare("strat", "(declare-fun strat (Str Int) Int)")
 				k := g.sc.elemComp(sl.Elem())
 				g.assume(fmt.Sprintf("(forall ((k! Int)) (! (=> (and (<= 0 k!) (< k! (strlen %s))) (= (select (select %s %s) k!) (strat %s k!))) :pattern ((select (select %s %s) k!))))", v, g.get(g.st, k), ref, v, g.get(g.st, k), ref))
+				// converting these bytes back yields the string
+				g.sc.declare("strofbytes", "(declare-fun strofbytes ((Array Int Int) Int Int) Str)")
+				g.assume(fmt.Sprintf("(= (strofbytes (select %s %s) 0 (strlen %s)) %s)", g.get(g.st, k), ref, v, v))
 			}
-		} else if _, ok := from.Underlying().(*types.Slice); ok {
+		} else if fs, ok := from.Underlying().(*types.Slice); ok {
 			g.assume(fmt.Sprintf("(= (strlen %s) (s-len %s))", r, v))
+			if isUint8(fs.Elem()) {
+				// string(b) is a function of the bytes of b
+				g.sc.declare("strofbytes", "(declare-fun strofbytes ((Array Int Int) Int Int) Str)")
+				g.assume(fmt.Sprintf("(= %s (strofbytes (select %s (s-arr %s)) (s-off %s) (s-len %s)))", r, g.get(g.st, g.sc.elemComp(fs.Elem())), v, v, v))
+			}
 		} else {
 			g.assume(fmt.Sprintf("(>= (strlen %s) 0)", r))
 		}
